@@ -1169,6 +1169,20 @@ def np_atleast_1d(I, a, k):
     return out[0] if len(out) == 1 else tuple(out)
 
 
+def np_empty(I, a, k):
+    """numpy.empty(shape): an array of that shape holding ARBITRARY reals"""
+    shp = a[0] if a else k.get('shape')
+    shp = (shp,) if isinstance(shp, int) and not isinstance(shp, bool) else shp
+    if not isinstance(shp, tuple) or len(shp) > 2 or not all(isinstance(d, int) and not isinstance(d, bool) and d >= 0 for d in shp):
+        raise Unsupported('numpy.empty of shape %r' % (shp,))
+    fresh = lambda: I.st.fresh('empty', 'real')        # noqa: E731
+    if len(shp) == 0:
+        return fresh()
+    if len(shp) == 1:
+        return I.st.alloc('clist', [fresh() for _ in range(shp[0])], nd=True)
+    return I.st.alloc('clist', [I.st.alloc('clist', [fresh() for _ in range(shp[1])], nd=True) for _ in range(shp[0])], nd=True)
+
+
 def np_ptp(I, a, k):
     x = a[0]
     if set(k) - {'axis'} or len(a) > 2:
@@ -1599,7 +1613,7 @@ def lib_lookup(I, dotted):
         'numpy.shape': Builtin('numpy.shape', np_shape),
         'numpy.broadcast': Builtin('numpy.broadcast', np_broadcast),
         'numpy.atleast_1d': Builtin('numpy.atleast_1d', np_atleast_1d),
-        'numpy.empty': Builtin('numpy.empty', _np_filled(0.0)),
+        'numpy.empty': Builtin('numpy.empty', np_empty),
         'numpy.intersect1d': Builtin('numpy.intersect1d', np_intersect1d),
         'numpy.argmin': Builtin('numpy.argmin', lambda I_, a, k: np_argext(I_, a, k, True)),
         'numpy.argmax': Builtin('numpy.argmax', lambda I_, a, k: np_argext(I_, a, k, False)),
